@@ -919,11 +919,20 @@ def gen(ctx):
     """Regenerate coq/Gen/C04_tables.v; Proofs/C04_tables.v re-proves that the model's character classes and
     HTML offer list are the source's.  Returns a list of problems (fail-closed)."""
     import os
+    import types
+    problems = []
     try:
         fw.write_if_changed(os.path.join(fw.COQ, "Gen", "C04_tables.v"), gen_text())
-        return []
     except Exception as e:  # noqa
-        return ["C04 translator: %s: %s" % (type(e).__name__, e)]
+        problems.append("C04 translator: %s: %s" % (type(e).__name__, e))
+    # Props/C04.v also states parse_offer against C03's regenerated media_type_compiled_re (Gen/C03_regexes.v):
+    # bring that file up to date with the live source too, so the language theorems are re-decided on this run
+    try:
+        from harness.props import c03
+        problems += ["C03 translator (used by C04): " + x for x in c03.gen(types.SimpleNamespace(extra={}))]
+    except Exception as e:  # noqa
+        problems.append("C03 translator (used by C04) failed: %s: %s" % (type(e).__name__, e))
+    return problems
 
 
 # ----------------------------------------------------------------------------------------------
